@@ -155,7 +155,16 @@ def gen_c18(rng, oracle_factory, index, tier="quick"):
     state = {"ops": None}
     g = gen.Gen(rng, p, None, max_box=1 << 13)
     g.oracle = oracle_factory(g)
-    base = g.new_model(want_cfg=True)
+    if rng.random() < 0.08:
+        # a builder-style start: a configurator without any rule yet
+        base = g.fresh()
+        g.emit({"op": "new", "h": base, "recipe": ["Stingy", [], rng.choice(["main", "M", None])]})
+        if base not in g.handles:
+            base = g.new_model(want_cfg=True)
+        else:
+            g.hit("c18:empty-configurator-as-base")
+    else:
+        base = g.new_model(want_cfg=True)
     versions = [base]
     depth = {base: 0}
     nadds = rng.randint(2, 7 if tier == "quick" else 12)
